@@ -515,7 +515,20 @@ func run(e *core.Env) {
 					}
 				}
 				sb := genSwitchBlock()
-				f, err := M.Inst.Builder.NewFrameV1(src.IP, dst, mt, sb, body, apx)
+				// Transit frames are forwarded without looking at their seal: anything can stand
+				// in the source field - also addresses no error reply can ever be sent to - and
+				// the destination may be one whose best route leads back to where it came from.
+				srcIP := src.IP
+				if tp.Chance(1, 6) {
+					var rb [16]byte
+					copy(rb[:], tp.Bytes(16))
+					srcIP = []netip.Addr{ident.Get(ident.Privacy, tp.Intn(4)).IP, netip.IPv6Unspecified(), netip.AddrFrom16(rb),
+						netip.MustParseAddr("2001:db8::1"), V.IP, netip.MustParseAddr("fd00::4")}[tp.Intn(6)]
+					rb[0], rb[1] = 0xfd, byte(0x10+tp.Intn(0x60))
+					dst = []netip.Addr{M.IP, H.IP, unknown.IP, netip.AddrFrom16(rb)}[tp.Intn(4)]
+					e.Probe("transit_frame_with_odd_source")
+				}
+				f, err := M.Inst.Builder.NewFrameV1(srcIP, dst, mt, sb, body, apx)
 				if err != nil {
 					continue
 				}
